@@ -56,6 +56,15 @@ ChooseComponent ==
                       /\ mods' = ms /\ skips' = [i \in 1 .. n |-> IF rev THEN Rev(SetToSeq(sks[i])) ELSE SetToSeq(sks[i])]
     /\ kind' = "component" /\ stage' = "script" /\ UNCHANGED <<script, plan>>
 
+\* longer components (3 and 4 modules) of tiny modules: the order of the modules matters, not their contents
+ChooseLongComponent ==
+    /\ stage = "shape"
+    /\ \E n \in {3, 4} : \E fs \in [1 .. n -> {<<>>, <<1>>, <<1, 1>>}] : \E skl \in BOOLEAN :
+         /\ mods' = [i \in 1 .. n |-> [nimp |-> 0, funcs |-> fs[i], repl |-> 0]]
+         \* optionally skip the last function of every module that has two
+         /\ skips' = [i \in 1 .. n |-> IF skl /\ Len(fs[i]) = 2 THEN <<1>> ELSE <<>>]
+    /\ kind' = "component" /\ stage' = "script" /\ UNCHANGED <<script, plan>>
+
 ChooseScript ==
     /\ stage = "script"
     /\ \E s \in Scripts : script' = s
@@ -75,7 +84,7 @@ ChoosePlan ==
                s2.mod # s.mod /\ plan' = <<PlanEntry(s, md), PlanEntry(s2, "before")>>
     /\ stage' = "plan" /\ UNCHANGED <<kind, mods, skips, script>>
 
-Next == ChooseModule \/ ChooseComponent \/ ChooseScript \/ ChoosePlan
+Next == ChooseModule \/ ChooseComponent \/ ChooseLongComponent \/ ChooseScript \/ ChoosePlan
 Spec == Init /\ [][Next]_vars
 
 \* ---- properties of the Ideal visiting order -------------------------------------
